@@ -191,7 +191,8 @@ fn parse_value(b: &[u8], p: &mut usize) -> Result<Json, String> {
                             b'b' => out.push('\u{8}'),
                             b'f' => out.push('\u{c}'),
                             b'u' => {
-                                let h = std::str::from_utf8(&b[*p..*p + 4]).map_err(|e| e.to_string())?;
+                                let h = std::str::from_utf8(&b[*p..*p + 4])
+                                    .map_err(|e| e.to_string())?;
                                 let cp = u32::from_str_radix(h, 16).map_err(|e| e.to_string())?;
                                 *p += 4;
                                 out.push(char::from_u32(cp).unwrap_or('?'));
@@ -206,7 +207,9 @@ fn parse_value(b: &[u8], p: &mut usize) -> Result<Json, String> {
                         while end < b.len() && b[end] != b'"' && b[end] != b'\\' {
                             end += 1;
                         }
-                        out.push_str(std::str::from_utf8(&b[start..end]).map_err(|e| e.to_string())?);
+                        out.push_str(
+                            std::str::from_utf8(&b[start..end]).map_err(|e| e.to_string())?,
+                        );
                         *p = end;
                     }
                 }
@@ -266,7 +269,9 @@ fn parse_value(b: &[u8], p: &mut usize) -> Result<Json, String> {
             if let Ok(i) = t.parse::<i128>() {
                 Ok(Json::Int(i))
             } else {
-                t.parse::<f64>().map(Json::Num).map_err(|e| format!("number {:?}: {}", t, e))
+                t.parse::<f64>()
+                    .map(Json::Num)
+                    .map_err(|e| format!("number {:?}: {}", t, e))
             }
         }
     }
@@ -350,7 +355,9 @@ pub fn hex(b: &[u8]) -> String {
 }
 
 pub fn unhex(s: &str) -> Vec<u8> {
-    (0..s.len() / 2).map(|i| u8::from_str_radix(&s[2 * i..2 * i + 2], 16).unwrap_or(0)).collect()
+    (0..s.len() / 2)
+        .map(|i| u8::from_str_radix(&s[2 * i..2 * i + 2], 16).unwrap_or(0))
+        .collect()
 }
 
 // ---------------------------------------------------------------------------------------------
@@ -371,7 +378,12 @@ pub struct Violation {
 
 impl Violation {
     pub fn new(clause: &str, detail: impl Into<String>) -> Violation {
-        Violation { clause: clause.into(), detail: detail.into(), fingerprint: String::new(), replay: Json::Null }
+        Violation {
+            clause: clause.into(),
+            detail: detail.into(),
+            fingerprint: String::new(),
+            replay: Json::Null,
+        }
     }
 }
 
@@ -407,7 +419,12 @@ pub struct Report {
 
 impl Report {
     pub fn new(engine: &str, family: &str) -> Report {
-        Report { engine: engine.into(), family: family.into(), exhaustive: true, ..Default::default() }
+        Report {
+            engine: engine.into(),
+            family: family.into(),
+            exhaustive: true,
+            ..Default::default()
+        }
     }
     pub fn to_json(&self) -> Json {
         let mut j = Json::obj()
@@ -419,14 +436,20 @@ impl Report {
             .set("max_depth", self.max_depth)
             .set("distinct_outcomes", self.distinct_outcomes)
             .set("exhaustive", self.exhaustive)
-            .set("cap_hit", match &self.cap_hit {
-                Some(s) => Json::Str(s.clone()),
-                None => Json::Null,
-            })
-            .set("completed_bound", match &self.completed_bound {
-                Some(s) => Json::Str(s.clone()),
-                None => Json::Null,
-            })
+            .set(
+                "cap_hit",
+                match &self.cap_hit {
+                    Some(s) => Json::Str(s.clone()),
+                    None => Json::Null,
+                },
+            )
+            .set(
+                "completed_bound",
+                match &self.completed_bound {
+                    Some(s) => Json::Str(s.clone()),
+                    None => Json::Null,
+                },
+            )
             .set("samples", Json::Arr(self.samples.clone()))
             .set("wall_s", self.wall_s);
         let mut vs = Vec::new();
@@ -455,7 +478,9 @@ pub struct Output {
 
 impl Output {
     pub fn new() -> Output {
-        Output { reports: Vec::new() }
+        Output {
+            reports: Vec::new(),
+        }
     }
     pub fn push(&mut self, r: Report) {
         eprintln!(
@@ -478,7 +503,10 @@ impl Output {
         self.reports.push(r);
     }
     pub fn write(&self, path: &str) {
-        let j = Json::obj().set("reports", Json::Arr(self.reports.iter().map(|r| r.to_json()).collect()));
+        let j = Json::obj().set(
+            "reports",
+            Json::Arr(self.reports.iter().map(|r| r.to_json()).collect()),
+        );
         std::fs::write(path, j.to_string()).expect("write result file");
     }
     /// append mode used by in-crate test harnesses (several #[test]s write to one directory)
@@ -521,7 +549,13 @@ pub struct Limits {
 
 impl Limits {
     pub fn depth(d: usize) -> Limits {
-        Limits { max_depth: d, wall_s: 600.0, max_states: 50_000_000, threads: default_threads(), max_violations: 8 }
+        Limits {
+            max_depth: d,
+            wall_s: 600.0,
+            max_states: 50_000_000,
+            threads: default_threads(),
+            max_violations: 8,
+        }
     }
     pub fn wall(mut self, s: f64) -> Limits {
         self.wall_s = s;
@@ -537,7 +571,11 @@ pub fn default_threads() -> usize {
     std::env::var("VERIF_THREADS")
         .ok()
         .and_then(|s| s.parse().ok())
-        .unwrap_or_else(|| std::thread::available_parallelism().map(|n| n.get()).unwrap_or(4))
+        .unwrap_or_else(|| {
+            std::thread::available_parallelism()
+                .map(|n| n.get())
+                .unwrap_or(4)
+        })
 }
 
 fn panic_message(e: Box<dyn std::any::Any + Send>) -> String {
@@ -572,8 +610,16 @@ fn rebuild<S: Sys>(init: &(dyn Fn() -> S + Sync), hist: &[u16]) -> Result<S, Str
     let mut s = init();
     for (d, &i) in hist.iter().enumerate() {
         let ops = s.ops();
-        let op = ops.get(i as usize).ok_or_else(|| format!("replay diverged at depth {}: op index {} of {}", d, i, ops.len()))?;
-        guarded("replay", || s.step(op)).map_err(|v| format!("replay diverged at depth {}: {} {}", d, v.clause, v.detail))?;
+        let op = ops.get(i as usize).ok_or_else(|| {
+            format!(
+                "replay diverged at depth {}: op index {} of {}",
+                d,
+                i,
+                ops.len()
+            )
+        })?;
+        guarded("replay", || s.step(op))
+            .map_err(|v| format!("replay diverged at depth {}: {} {}", d, v.clause, v.detail))?;
     }
     Ok(s)
 }
@@ -597,7 +643,13 @@ pub fn describe<S: Sys>(init: &(dyn Fn() -> S + Sync), hist: &[u16]) -> Vec<Stri
 ///
 /// Level-synchronous: every state at depth d is expanded before any at depth d+1, the set of
 /// states and the transition count are therefore independent of thread scheduling.
-pub fn explore<S: Sys>(engine: &str, family: &str, config: Json, init: &(dyn Fn() -> S + Sync), lim: &Limits) -> Report {
+pub fn explore<S: Sys>(
+    engine: &str,
+    family: &str,
+    config: Json,
+    init: &(dyn Fn() -> S + Sync),
+    lim: &Limits,
+) -> Report {
     let t0 = Instant::now();
     let mut rep = Report::new(engine, family);
     let seen: Vec<Mutex<HashSet<u128>>> = (0..64).map(|_| Mutex::new(HashSet::new())).collect();
@@ -618,7 +670,10 @@ pub fn explore<S: Sys>(engine: &str, family: &str, config: Json, init: &(dyn Fn(
             .set("config", config.clone())
             .set("clause", v.clause.as_str())
             .set("detail", v.detail.as_str())
-            .set("history", hist.iter().map(|&i| i as u64).collect::<Vec<u64>>())
+            .set(
+                "history",
+                hist.iter().map(|&i| i as u64).collect::<Vec<u64>>(),
+            )
             .set("ops", ops);
         v
     };
@@ -627,7 +682,10 @@ pub fn explore<S: Sys>(engine: &str, family: &str, config: Json, init: &(dyn Fn(
     let s0 = match catch_unwind(AssertUnwindSafe(|| init())) {
         Ok(s) => s,
         Err(e) => {
-            rep.violations.push(mk_violation(Violation::new("init.panic", panic_message(e)), &[]));
+            rep.violations.push(mk_violation(
+                Violation::new("init.panic", panic_message(e)),
+                &[],
+            ));
             rep.wall_s = t0.elapsed().as_secs_f64();
             return rep;
         }
@@ -645,7 +703,9 @@ pub fn explore<S: Sys>(engine: &str, family: &str, config: Json, init: &(dyn Fn(
         // states first reached in this level: key -> lexicographically smallest history reaching it
         // (makes the representative history, and with it samples and fingerprints, independent of
         // thread timing)
-        let level: Vec<Mutex<std::collections::HashMap<u128, Vec<u16>>>> = (0..64).map(|_| Mutex::new(std::collections::HashMap::new())).collect();
+        let level: Vec<Mutex<std::collections::HashMap<u128, Vec<u16>>>> = (0..64)
+            .map(|_| Mutex::new(std::collections::HashMap::new()))
+            .collect();
         let cursor = AtomicU64::new(0);
         let nthreads = lim.threads.max(1).min(frontier.len().max(1));
         std::thread::scope(|scope| {
@@ -660,7 +720,8 @@ pub fn explore<S: Sys>(engine: &str, family: &str, config: Json, init: &(dyn Fn(
                             break;
                         }
                         if (i & 0xff) == 0
-                            && (t0.elapsed().as_secs_f64() > lim.wall_s || states.load(Ordering::Relaxed) > lim.max_states)
+                            && (t0.elapsed().as_secs_f64() > lim.wall_s
+                                || states.load(Ordering::Relaxed) > lim.max_states)
                         {
                             capped.store(true, Ordering::Relaxed);
                             break;
@@ -670,7 +731,11 @@ pub fn explore<S: Sys>(engine: &str, family: &str, config: Json, init: &(dyn Fn(
                             Ok(s) => s,
                             Err(e) => {
                                 let v = mk_violation(Violation::new("machinery.replay", e), hist);
-                                violations.lock().unwrap().entry(v.fingerprint.clone()).or_insert(v);
+                                violations
+                                    .lock()
+                                    .unwrap()
+                                    .entry(v.fingerprint.clone())
+                                    .or_insert(v);
                                 continue;
                             }
                         };
@@ -698,9 +763,15 @@ pub fn explore<S: Sys>(engine: &str, family: &str, config: Json, init: &(dyn Fn(
                                     let mut g = violations.lock().unwrap();
                                     match g.get(&v.fingerprint) {
                                         // keep the smallest history per fingerprint
-                                        Some(old) if old.replay.get("history").map(|h| h.to_string()) <= v.replay.get("history").map(|h| h.to_string()) => {}
+                                        Some(old)
+                                            if old.replay.get("history").map(|h| h.to_string())
+                                                <= v.replay
+                                                    .get("history")
+                                                    .map(|h| h.to_string()) => {}
                                         _ => {
-                                            if g.len() < lim.max_violations * 4 || g.contains_key(&v.fingerprint) {
+                                            if g.len() < lim.max_violations * 4
+                                                || g.contains_key(&v.fingerprint)
+                                            {
                                                 g.insert(v.fingerprint.clone(), v);
                                             }
                                         }
@@ -769,11 +840,21 @@ pub fn explore<S: Sys>(engine: &str, family: &str, config: Json, init: &(dyn Fn(
     // samples: the longest explored history and one mid-depth history, written as op lists
     sample_hist.reverse();
     for h in sample_hist.iter().take(2) {
-        rep.samples.push(Json::obj().set("family", family).set("ops", describe(init, h)));
+        rep.samples.push(
+            Json::obj()
+                .set("family", family)
+                .set("ops", describe(init, h)),
+        );
     }
     let mut vs: Vec<Violation> = violations.into_inner().unwrap().into_values().collect();
     // shortest first: the first counterexample is the easiest to read
-    vs.sort_by_key(|v| v.replay.get("history").and_then(|h| h.as_arr()).map(|a| a.len()).unwrap_or(0));
+    vs.sort_by_key(|v| {
+        v.replay
+            .get("history")
+            .and_then(|h| h.as_arr())
+            .map(|a| a.len())
+            .unwrap_or(0)
+    });
     vs.truncate(lim.max_violations);
     rep.violations = vs;
     rep.extra.push(("config".into(), config));
@@ -782,13 +863,22 @@ pub fn explore<S: Sys>(engine: &str, family: &str, config: Json, init: &(dyn Fn(
 }
 
 /// Re-execute one recorded history without the explorer. Returns the violation it ends in, if any.
-pub fn replay_history<S: Sys>(init: &(dyn Fn() -> S + Sync), hist: &[u16]) -> Result<Vec<String>, (Vec<String>, Violation)> {
+pub fn replay_history<S: Sys>(
+    init: &(dyn Fn() -> S + Sync),
+    hist: &[u16],
+) -> Result<Vec<String>, (Vec<String>, Violation)> {
     let mut s = init();
     let mut trace = Vec::new();
     for &i in hist {
         let ops = s.ops();
         let Some(op) = ops.get(i as usize) else {
-            return Err((trace, Violation::new("machinery.replay", format!("op index {} out of range {}", i, ops.len()))));
+            return Err((
+                trace,
+                Violation::new(
+                    "machinery.replay",
+                    format!("op index {} out of range {}", i, ops.len()),
+                ),
+            ));
         };
         trace.push(format!("{:?}", op));
         if let Err(v) = guarded("step", || s.step(op)) {
@@ -844,7 +934,13 @@ pub fn enumerate(
                                 if g.len() < 64 {
                                     let case = describe_case(i);
                                     if v.fingerprint.is_empty() {
-                                        v.fingerprint = format!("{}|{}|{}|{}", engine, family, v.clause, case.to_string());
+                                        v.fingerprint = format!(
+                                            "{}|{}|{}|{}",
+                                            engine,
+                                            family,
+                                            v.clause,
+                                            case.to_string()
+                                        );
                                     }
                                     v.replay = Json::obj()
                                         .set("engine", engine)
@@ -871,7 +967,10 @@ pub fn enumerate(
     rep.distinct_outcomes = outcomes.lock().unwrap().len() as u64;
     if capped.load(Ordering::Relaxed) {
         rep.exhaustive = false;
-        rep.cap_hit = Some(format!("wall cap {:.0}s hit after {} of {} cases", wall_s, d, n));
+        rep.cap_hit = Some(format!(
+            "wall cap {:.0}s hit after {} of {} cases",
+            wall_s, d, n
+        ));
     }
     rep.completed_bound = Some(format!("{} of {} cases", d, n));
     if n > 0 {
@@ -880,7 +979,12 @@ pub fn enumerate(
         rep.samples.push(describe_case(n - 1));
     }
     let mut vs: Vec<Violation> = violations.into_inner().unwrap().into_values().collect();
-    vs.sort_by_key(|v| v.replay.get("case_index").and_then(|c| c.as_i128()).unwrap_or(0));
+    vs.sort_by_key(|v| {
+        v.replay
+            .get("case_index")
+            .and_then(|c| c.as_i128())
+            .unwrap_or(0)
+    });
     vs.truncate(8);
     rep.violations = vs;
     rep.wall_s = t0.elapsed().as_secs_f64();
